@@ -60,6 +60,12 @@ Qed.
 Lemma hits_cons e l : hits (e :: l) = (if ev_good e then length (ev_I e) - length (ev_new e) else 0) + hits l.
 Proof. reflexivity. Qed.
 
+Lemma lcalls_good l : Forall (fun e : evt => ev_good e = true) l -> flat_map fst (lcalls l) = evald (lcalls l).
+Proof.
+  induction 1 as [|e l G _ IH]; [reflexivity|]. rewrite lcalls_cons, evald_app, flat_map_app. f_equal; [exact IH|].
+  unfold call_of, ev_good, evald in *. destruct (ev_out e) as [| |[y|]]; try discriminate; reflexivity.
+Qed.
+
 Lemma rmem_in i l : rmem i l = true <-> In i l.
 Proof.
   unfold rmem. rewrite existsb_exists. split.
@@ -123,10 +129,11 @@ Lemma fe_view c I :
   match snd (feval c I) with
   | None => (ev_out e = Refused /\ k_stop (fst (feval c I)) = Some Sm /\
              over C (k_m (fst (feval c I)) + length (ev_new e)) = true)
-            \/ (ev_out e = Called None /\ k_stop (fst (feval c I)) = Some Sfunc)
+            \/ (ev_out e = Called None /\ k_stop (fst (feval c I)) = Some Sfunc /\
+                over C (k_m (fst (feval c I)) + length (ev_new e)) = false)
   | Some _ => ev_good e = true /\ k_stop (fst (feval c I)) = k_stop c
   end.
-Proof. fe_cases c I; cbn; eexists; (split; [reflexivity|]); (split; [reflexivity|]); cbn; auto. Qed.
+Proof. fe_cases c I; cbn; eexists; (split; [reflexivity|]); (split; [reflexivity|]); cbn; auto 6. Qed.
 
 (* a successful invocation on a non-empty batch consumes at least one unit of m + m_cache *)
 Lemma fe_progress c I : I <> [] -> snd (feval c I) <> None ->
@@ -247,24 +254,61 @@ Lemma acc_val_fe ch0 c I : NoDup I -> acc_ch ch0 c -> acc_val ch0 c -> acc_val c
 Proof.
   intros HN (ch' & A & B & D) V. specialize (V ch' A). destruct V as [V1 V2]. unfold acc_val.
   fe_cases c I; try congruence; injection A as <-; cbn [fst klog k_cache k_log]; intros ch2 E2;
-    try rewrite Ech in E2; injection E2 as <-; rewrite lcalls_cons; unfold call_of; cbn [ev_out ev_new]; rewrite ?app_nil_r;
-    try (split; [exact V1|]; intros I' y' Hin; try exact (V2 I' y' Hin);
-         apply in_app_or in Hin as [Hin|[Hin|[]]]; [exact (V2 I' y' Hin)|discriminate]).
-  assert (Hnew : forall i, In i (i0 :: In0) -> cmem i ch = false).
-  { intros i Hi. rewrite <- Efl in Hi. apply filter_In in Hi as [_ Hi]. now apply negb_true_iff in Hi. }
-  assert (Hy : length y = length (i0 :: In0)) by (now apply Hlen in Ef).
-  assert (Hold : forall i, cmem i ch = true -> cget0 K i (cset_all (combine (i0 :: In0) y) ch) = cget0 K i ch).
-  { intros i Hi. apply cget0_cset_all_notin. rewrite map_fst_combine by auto.
-    destruct (rmem i (i0 :: In0)) eqn:E; auto. apply rmem_in in E. apply Hnew in E. congruence. }
-  split.
-  - intros i Hi. rewrite Hold; auto. rewrite B. unfold known. now rewrite Hi.
-  - intros I' y' Hin k Hk. apply in_app_or in Hin as [Hin|[Hin|[]]].
-    + rewrite Hold; [exact (V2 I' y' Hin k Hk)|]. rewrite B. unfold known.
-      assert (Hr : rmem (nth k I' []) (evald (lcalls (k_log c))) = true).
-      { apply rmem_in. unfold evald. apply in_flat_map. exists (I', Some y'). split; auto.
-        simpl. apply nth_In; auto. }
-      rewrite Hr. apply orb_true_r.
-    + injection Hin as <- <-. apply cget0_cset_all_nth; auto.
-      rewrite <- Efl. apply NoDup_filter; auto.
+    try rewrite Ech in E2; injection E2 as <-.
+  - split; [exact V1|]. intros I' y' Hin. rewrite lcalls_cons in Hin. unfold call_of in Hin. cbn [ev_out] in Hin.
+    rewrite app_nil_r in Hin. exact (V2 I' y' Hin).
+  - split; [exact V1|]. intros I' y' Hin. rewrite lcalls_cons in Hin. unfold call_of in Hin. cbn [ev_out] in Hin.
+    rewrite app_nil_r in Hin. exact (V2 I' y' Hin).
+  - assert (Hnew : forall i, In i (i0 :: In0) -> cmem i ch = false).
+    { intros i Hi. rewrite <- Efl in Hi. apply filter_In in Hi as [_ Hi]. now apply negb_true_iff in Hi. }
+    assert (Hy : length y = length (i0 :: In0)) by (now apply Hlen in Ef).
+    assert (Hold : forall i, cmem i ch = true -> cget0 K i (cset_all (combine (i0 :: In0) y) ch) = cget0 K i ch).
+    { intros i Hi. apply cget0_cset_all_notin. rewrite map_fst_combine by auto.
+      destruct (rmem i (i0 :: In0)) eqn:E; auto. apply rmem_in in E. apply Hnew in E. congruence. }
+    split.
+    + intros i Hi. rewrite Hold; auto. rewrite B. unfold known. now rewrite Hi.
+    + intros I' y' Hin k Hk. rewrite lcalls_cons in Hin. unfold call_of in Hin. cbn [ev_out ev_new] in Hin.
+      apply in_app_or in Hin as [Hin|[Hin|[]]].
+      * rewrite Hold; [exact (V2 I' y' Hin k Hk)|]. rewrite B. unfold known.
+        assert (Hr : rmem (nth k I' []) (evald (lcalls (k_log c))) = true).
+        { apply rmem_in. unfold evald. apply in_flat_map. exists (I', Some y'). split; auto.
+          simpl. apply nth_In; auto. }
+        rewrite Hr. apply orb_true_r.
+      * injection Hin as <- <-. apply (cget0_cset_all_nth (i0 :: In0) y ch k); auto.
+        rewrite <- Efl. apply NoDup_filter; auto.
+  - split; [exact V1|]. intros I' y' Hin. rewrite lcalls_cons in Hin. unfold call_of in Hin. cbn [ev_out ev_new] in Hin.
+    apply in_app_or in Hin as [Hin|[Hin|[]]]; [exact (V2 I' y' Hin)|discriminate].
 Qed.
+(* ------------------------------------------------------------ domain of the requests *)
+(* every request is a non-empty list of pairwise distinct rows inside the bounds bn (width = length bn);
+   what is handed to the objective is a sub-list of the request, non-empty when the objective is called *)
+Definition ev_dom (bn : list nat) (e : evt) : Prop :=
+  rows_ok bn (ev_I e) /\ (exists p, ev_new e = filter p (ev_I e)) /\
+  (forall r, ev_out e = Called r -> ev_new e <> []).
+Definition dom (bn : list nat) (c : cntt) : Prop := Forall (ev_dom bn) (k_log c).
+
+Lemma filter_true {A} (l : list A) : filter (fun _ => true) l = l.
+Proof. induction l; simpl; congruence. Qed.
+
+Lemma dom_fe bn c I : rows_ok bn I -> dom bn c -> dom bn (fst (feval c I)).
+Proof.
+  intros HI HD. assert (HI' := HI). destruct HI' as (Hne & _). unfold dom.
+  fe_cases c I; cbn [fst klog k_log]; constructor; auto; unfold ev_dom; cbn [ev_I ev_new ev_out];
+    (split; [exact HI|]); split; try (intros r E; congruence);
+    try (exists (fun _ => true); now rewrite filter_true);
+    try (exists (fun i => negb (cmem i ch)); now rewrite Efl).
+Qed.
+
+Lemma dom_calls bn l :
+  Forall (ev_dom bn) l ->
+  Forall (fun q => fst q <> [] /\ NoDup (fst q) /\ Forall (fun r => Forall2 lt r bn) (fst q)) (lcalls l).
+Proof.
+  induction 1 as [|e l (R & (p & Ep) & Hc) _ IH]; [constructor|].
+  rewrite lcalls_cons. apply Forall_app. split; [exact IH|].
+  unfold call_of. destruct (ev_out e) as [| |r] eqn:Eo; constructor; [|constructor].
+  destruct R as (_ & R2 & R3). cbn [fst]. split; [exact (Hc r eq_refl)|]. rewrite Ep. split.
+  - apply NoDup_filter; auto.
+  - rewrite Forall_forall in *. intros x Hx. apply filter_In in Hx as [Hx _]. auto.
+Qed.
+
 End Acc.
